@@ -362,7 +362,7 @@ def obligations(tier):
             (2, True, 1, 7, 14, 3),
             (2, True, 2, 7, 12, 3),
         ]
-        wall = 170
+        wall = 600
     else:
         combos = [
             (2, False, None, 8, 10, 3),
@@ -381,7 +381,7 @@ def obligations(tier):
             (2, True, 2, 9, 16, 4),
             (3, True, 3, 9, 18, 4),
         ]
-        wall = 1500
+        wall = 3000
     for n, ub, bs, n_o, n_d, n_p in combos:
         name = f"amu[n={n},backups={int(ub)},batch={bs}]"
         obls.append(
